@@ -43,7 +43,8 @@ LeafCls(l) == IF l[1] \in {"p", "b"} THEN "BOOL"
               ELSE IF l[1] \in {"lt", "le", "gt", "ge"} THEN "INV"
               ELSE IF l[1] = "eq" THEN "GUARD" ELSE "CONSTR"
 LeafClk(l) == l[1] \notin {"p", "b"}
-LeafNames == IF FullLeaves THEN MidLeaves ELSE ClassLeaves
+ThoroughLeaves == ClassLeaves \cup {<<"b", "", "">>}
+LeafNames == IF FullLeaves THEN ThoroughLeaves ELSE ClassLeaves
 
 Unary == {"not", "forall", "exists"}
 Binary == {"and", "or", "imply", "xor", "eqq", "neq"}
@@ -137,9 +138,17 @@ Case(t) == LET v == Abs(t) IN
 
 (* replayed universe: every tree to depth Depth over the chosen leaf set, plus every tree to depth 1 over ALL
    24 relational spellings (operator x clock/difference x side), so a rule that mis-types one spelling is hit *)
+(* FullLeaves adds the "spines": a depth-1 tree over the 12 middle leaves combined with one more leaf on either side, or under a unary
+   operator (the complete depth-2 universe over 12 leaves has 5 million trees) *)
+Spines(full) == IF ~full THEN {}        \* an operator with a parameter: TLC evaluates parameterless constant definitions at start-up, in every run
+          ELSE LET S == TreesOver(MidLeaves, 1) IN
+               {<<op, a, <<l>> >> : op \in Binary, a \in S, l \in MidLeaves} \cup {<<op, <<l>>, a>> : op \in Binary, a \in S, l \in MidLeaves}
+               \cup {<<op, a>> : op \in Unary, a \in S}
 Trees(d) == TreesOver(LeafNames, d) \cup TreesOver(AllLeaves, 1)
 TreeSound == \A t \in Trees(Depth) : LET v == Abs(t) IN
                 /\ AcceptsGuard(v) => v.cvx
                 /\ AcceptsInv(v) => v.cvx
+SpineSound == \A t \in Spines(FullLeaves) : LET v == Abs(t) IN (AcceptsGuard(v) => v.cvx) /\ (AcceptsInv(v) => v.cvx)
 Export(file) == LET S == Trees(Depth) IN ndJsonSerialize(file, SetToSeq({Case(t) : t \in S}))
+ExportSpines(file) == ndJsonSerialize(file, SetToSeq({Case(t) : t \in Spines(FullLeaves)}))
 =============================================================================
